@@ -425,17 +425,27 @@ fn c14_backend<F: Function + MathFunction + Clone>(
     if let Some(m) = c.xf.as_ref() {
         let pz = m[(3, 2)];
         if pz.abs() >= 0.5 && m[(3, 0)] == 0.0 && m[(3, 1)] == 0.0 {
-            let negative_w = ch(&mut |c| c.choose("w_side", 2)) == 1;
-            let wmid = if negative_w { -1.5f32 } else { 1.5 };
+            // 0: in front of the vanishing plane, 1: beyond it, 2: probe points
+            // on both sides, so that the box through them *straddles* the plane
+            // w = 0 (added after seeded change C14-p): every point itself has
+            // |w| >= 0.5, the box contains points with w = 0, and an interval
+            // result must enclose the values at the probe points or be NaN
+            let side = ch(&mut |c| c.choose("w_side", 3));
             rep.count(
-                if negative_w {
-                    "fault.box_beyond_vanishing_plane"
-                } else {
-                    "fault.box_under_strong_perspective"
+                match side {
+                    1 => "fault.box_beyond_vanishing_plane",
+                    2 => "fault.box_straddles_vanishing_plane",
+                    _ => "fault.box_under_strong_perspective",
                 },
                 1,
             );
-            for p in pts.iter_mut() {
+            for (k, p) in pts.iter_mut().enumerate() {
+                let negative_w = match side {
+                    0 => false,
+                    1 => true,
+                    _ => k % 2 == 1,
+                };
+                let wmid = if negative_w { -1.5f32 } else { 1.5 };
                 // z in [-3, 3]  ->  w in wmid +- 1
                 let w = wmid + p[2] / 3.0;
                 p[2] = (w - m[(3, 3)]) / pz;
@@ -1578,6 +1588,82 @@ fn c19_solve<F: Function + MathFunction>(
     })
 }
 
+/// Equations as expression nodes: sum a_ij * v_j - b_i
+fn build_eqs(ctx: &mut Context, sys: &System, vars: &[Var], b: &[f32]) -> Vec<Node> {
+    sys.rows
+        .iter()
+        .zip(b)
+        .enumerate()
+        .map(|(ri, (r, b))| {
+            let mut acc: Option<Node> = None;
+            let mut late: Vec<Node> = vec![];
+            for (ti, (j, a)) in r.iter().enumerate() {
+                let v = ctx.var(vars[*j]);
+                let t = if sys.split[ri][ti] {
+                    // the second half is added at the end of the sum
+                    let h = ctx.mul(v, *a * 0.5).unwrap();
+                    let v2 = ctx.var(vars[*j]);
+                    late.push(ctx.mul(*a * 0.5, v2).unwrap());
+                    h
+                } else {
+                    ctx.mul(v, *a).unwrap()
+                };
+                acc = Some(match acc {
+                    None => t,
+                    Some(p) => ctx.add(p, t).unwrap(),
+                });
+            }
+            let mut acc = acc.unwrap();
+            for t in late {
+                acc = ctx.add(acc, t).unwrap();
+            }
+            ctx.sub(acc, *b).unwrap()
+        })
+        .collect()
+}
+
+/// A *dense* consistent system of the same shape as `sys` (same parameters,
+/// same free set, same number of equations): every equation mentions every
+/// parameter.  Solved on the same thread just before the real system, it is
+/// what a caller's previous, unrelated `solve` leaves behind in anything the
+/// solver keeps between calls.
+fn decoy_system(sys: &System) -> System {
+    let free_cols: Vec<usize> = (0..sys.n).filter(|i| sys.free[*i]).collect();
+    let mut rows: Vec<Vec<(usize, f32)>> = vec![];
+    for ri in 0..sys.rows.len() {
+        let d = free_cols[ri % free_cols.len()];
+        let row: Vec<(usize, f32)> = (0..sys.n)
+            .map(|j| {
+                let c = if j == d {
+                    2.0
+                } else {
+                    0.03125 * (1 + (ri + 2 * j) % 3) as f32 / sys.n.max(1) as f32
+                };
+                (j, c * sys.scale / sys.xscale)
+            })
+            .collect();
+        rows.push(row);
+    }
+    // another solution than the real system's
+    let xstar: Vec<f32> = sys.xstar.iter().map(|v| -0.5 * *v + 0.375 * sys.xscale).collect();
+    let b: Vec<f32> = rows
+        .iter()
+        .map(|r| r.iter().map(|(j, a)| *a as f64 * xstar[*j] as f64).sum::<f64>() as f32)
+        .collect();
+    let split = rows.iter().map(|r| vec![false; r.len()]).collect();
+    System {
+        n: sys.n,
+        free: sys.free.clone(),
+        xstar,
+        rows,
+        b,
+        exact: false,
+        split,
+        scale: sys.scale,
+        xscale: sys.xscale,
+    }
+}
+
 pub fn run_c19(st: &Shared, _tier: Tier) -> RunReport {
     let mut rep = RunReport::default();
     let sys = gen_system(&mut st.borrow_mut().ch);
@@ -1600,40 +1686,8 @@ pub fn run_c19(st: &Shared, _tier: Tier) -> RunReport {
             sys.n, sys.free, sys.xstar, sys.rows, sys.b
         );
     }
-    // equations as expression nodes: sum a_ij * v_j - b_i
     let mut ctx = Context::new();
-    let mut build = |ctx: &mut Context, b: &[f32]| -> Vec<Node> {
-        sys.rows
-            .iter()
-            .zip(b)
-            .enumerate()
-            .map(|(ri, (r, b))| {
-                let mut acc: Option<Node> = None;
-                let mut late: Vec<Node> = vec![];
-                for (ti, (j, a)) in r.iter().enumerate() {
-                    let v = ctx.var(vars[*j]);
-                    let t = if sys.split[ri][ti] {
-                        // the second half is added at the end of the sum
-                        let h = ctx.mul(v, *a * 0.5).unwrap();
-                        let v2 = ctx.var(vars[*j]);
-                        late.push(ctx.mul(*a * 0.5, v2).unwrap());
-                        h
-                    } else {
-                        ctx.mul(v, *a).unwrap()
-                    };
-                    acc = Some(match acc {
-                        None => t,
-                        Some(p) => ctx.add(p, t).unwrap(),
-                    });
-                }
-                let mut acc = acc.unwrap();
-                for t in late {
-                    acc = ctx.add(acc, t).unwrap();
-                }
-                ctx.sub(acc, *b).unwrap()
-            })
-            .collect()
-    };
+    let build = |ctx: &mut Context, b: &[f32]| -> Vec<Node> { build_eqs(ctx, &sys, &vars, b) };
     let eq_nodes = build(&mut ctx, &sys.b);
 
     // start: the solution itself (fixed-point clause) or a perturbation
@@ -1747,9 +1801,23 @@ pub fn run_c19(st: &Shared, _tier: Tier) -> RunReport {
         Some(x)
     };
 
+    // the caller's previous solve on this thread (added after seeded change
+    // C19-o): an unrelated dense system of the same shape, solved first with
+    // the same backend; its result is only required to exist
+    let with_decoy = st.borrow_mut().ch.odds("previous_solve_on_this_thread", 1, 3);
+    let decoy = decoy_system(&sys);
+    let decoy_nodes = build_eqs(&mut ctx, &decoy, &vars, &decoy.b);
+    let decoy_start: Vec<f32> = decoy.xstar.iter().map(|v| *v + 0.25 * sys.xscale).collect();
+    if with_decoy {
+        rep.count("fault.unrelated_solve_of_the_same_shape_just_before", 1);
+        let _ = c19_solve::<VmFunction>(&decoy, &ctx, &decoy_nodes, &vars, &decoy_start, &decoy.xstar);
+    }
     let r_vm = c19_solve::<VmFunction>(&sys, &ctx, &eq_nodes, &vars, &start, &sys.xstar);
     let vm_raw = r_vm.as_ref().ok().and_then(|r| r.as_ref().ok()).cloned();
     let x_vm = check(&mut rep, "vm", r_vm, &sys.xstar, &sys.b);
+    if with_decoy {
+        let _ = c19_solve::<JitFunction>(&decoy, &ctx, &decoy_nodes, &vars, &decoy_start, &decoy.xstar);
+    }
     let r_jit = c19_solve::<JitFunction>(&sys, &ctx, &eq_nodes, &vars, &start, &sys.xstar);
     let x_jit = check(&mut rep, "jit", r_jit, &sys.xstar, &sys.b);
     if let (Some(a), Some(b)) = (&x_vm, &x_jit) {
